@@ -5,7 +5,7 @@ CONSTANTS
   D = 1
   Vals = {0,1,2,3}
   Wts = {0,1,2}
-  Totals <- MCTotals2
+  Totals <- MCTotalsBig
   Export = TRUE
 INVARIANT QuantilesOrdered
 INVARIANT QuantilesWithinRange
